@@ -137,4 +137,25 @@ theorem c02_stamp_on_time (op : OpState) (now : Int) (h : op.stop = some now) :
     ({ op with stop := some now, st := .done } : OpState) = { op with st := .done } := by
   cases op; simp_all
 
+/-! ## along every episode -/
+
+/-- **C02 at every state the environment exposes, whatever the agent does.**  A completed
+operation whose configured duration is the constant `d` has a recorded interval of at least `d`
+– the difference is the outage time applied at its completion – and of exactly `d` when its
+machine has no outage configured; an operation in progress on a WORKING / OUTAGE machine is
+scheduled to end accordingly.  (For a stochastic duration the value is fixed when processing
+begins – `c02_begin` – and the same bookkeeping applies to it step by step: `c02_outage_extends`,
+`c02_stamp_keeps`, `c02_no_overdue`.) -/
+theorem c02_durations {ec : EnvCfg} {st : RewardStatic} {s0 σ : State} (hst : Start orc inst s0)
+    (h : Exposed orc inst ec st s0 σ) (j : JobState) (hj : j ∈ σ.jobs) (o : OpState) (ho : o ∈ j.ops)
+    (hrun : o.st = .done ∨ (o.st = .processing ∧ ∃ m ∈ σ.machines, m.id = o.machine ∧ (m.st = .working ∨ m.st = .outage)))
+    (oc : OpCfg) (hoc : oc ∈ inst.jobs.flatMap (·.ops)) (hk : oc.job = o.job ∧ oc.idx = o.idx) (d : Int)
+    (hd : oc.dur = .det d) :
+    ∃ a b, o.start = some a ∧ o.stop = some b ∧ a + d ≤ b ∧
+      ((∀ mc ∈ inst.machines, mc.id = o.machine → mc.outages = []) → b = a + d) := by
+  have hD := exposed_dur hst h
+  rcases hrun with hdone | ⟨hp, m, hm, hid, hms⟩
+  · exact hD.done j hj o ho hdone d ⟨oc, hoc, hk.1, hk.2, hd⟩
+  · exact hD.running j hj o ho hp m hm hid hms d ⟨oc, hoc, hk.1, hk.2, hd⟩
+
 end JSL
